@@ -1,13 +1,20 @@
 (* C18 - questions return only valid answers, count attempts exactly and terminate.
    The input is a script of typed lines followed by end of input. entry_invalid q line: the validator
    rejects what reaches it for that line (the stripped text, or the default for an empty line). *)
-From Clikit Require Import Base.Prelude Base.Res Model.Conv Model.Question Proofs.QuestionLemmas.
+From Coq Require Import Lia.
+From Clikit Require Import Base.Prelude Base.Res Model.Conv Model.Question Proofs.QuestionLemmas Proofs.QuestionAskLemmas.
 
 (* For EVERY choice list and script: an answer is a member of the choices (a list of members when multi-select). *)
 Theorem answer_is_member : forall q script a, o_end (ask_choice true q script) = Answered a ->
   match a with AOne v => In v (q_choices q) | AMany l => Forall (fun x => In x (q_choices q)) l | ANone => False end.
 Proof. exact answer_is_member_lemma. Qed.
 Print Assumptions answer_is_member.
+
+(* ... one value for a single-select question, a list for a multi-select one. *)
+Theorem answer_shape : forall q script a, o_end (ask_choice true q script) = Answered a ->
+  if q_multi q then exists l, a = AMany l else exists v, a = AOne v.
+Proof. exact answer_shape_lemma. Qed.
+Print Assumptions answer_shape.
 
 (* An index and the value it denotes are interchangeable (value occurring once, index text not itself a choice). *)
 Theorem index_and_value_interchangeable : forall q i c,
@@ -16,6 +23,38 @@ Theorem index_and_value_interchangeable : forall q i c,
   validate q (Some (dec_text (Z.of_nat i))) = inr (AOne c) /\ validate q (Some c) = inr (AOne c).
 Proof. exact index_value_lemma. Qed.
 Print Assumptions index_and_value_interchangeable.
+
+(* The same at the level of ask(): l1 is the line typed for the index, l2 the line typed for the value - blanks around
+   them or not (the answer is stripped before it is validated).  Hypotheses: single-select, at least one attempt, the
+   value occurs once among the choices, is not empty and is not changed by stripping, and the index text is not itself
+   a choice.  Both dialogues answer the value at once: one line read, one prompt, no error printed. *)
+Theorem index_and_value_interchangeable_when_asked : forall q i c l1 l2 rest1 rest2,
+  q_multi q = false -> q_attempts q <> Some 0 -> nth_error (q_choices q) i = Some c ->
+  positions (q_choices q) c 0 = [i] -> positions (q_choices q) (dec_text (Z.of_nat i)) 0 = [] ->
+  strip_ws l1 = dec_text (Z.of_nat i) -> strip_ws l2 = c -> c <> [] ->
+  ask_choice true q (l1 :: rest1) = {| o_end := Answered (AOne c); o_lines_read := 1; o_errors_printed := 0; o_prompts := 1 |} /\
+  ask_choice true q (l2 :: rest2) = {| o_end := Answered (AOne c); o_lines_read := 1; o_errors_printed := 0; o_prompts := 1 |}.
+Proof. exact ask_index_value. Qed.
+Print Assumptions index_and_value_interchangeable_when_asked.
+(* "Not changed by stripping" is needed: the clause is FALSE of the model - and of the code, same dialogues, same answers
+   (notes/a7-coq.md) - for a choice with a blank at an end (typing 0 answers " a", typing " a" is invalid: it reaches the
+   validator as "a"), and for a multi-select choice holding a blank anywhere (all blanks are removed from the entry). *)
+Theorem index_and_value_spaced_choice_refuted :
+  exists q i c, q_multi q = false /\ nth_error (q_choices q) i = Some c /\ positions (q_choices q) c 0 = [i] /\
+    o_end (ask_choice true q [dec_text (Z.of_nat i)]) = Answered (AOne c) /\ o_end (ask_choice true q [c]) = Failed VInvalid.
+Proof.
+  exists Spaced.q1, 0, [Spaced.sp; Spaced.a_]. destruct Spaced.index_works_value_does_not as [H1 H2].
+  split; [reflexivity|]. split; [reflexivity|]. split; [reflexivity|]. split; [exact H1|exact H2].
+Qed.
+Print Assumptions index_and_value_spaced_choice_refuted.
+Theorem index_and_value_multi_select_blank_refuted :
+  exists q i c, q_multi q = true /\ nth_error (q_choices q) i = Some c /\ positions (q_choices q) c 0 = [i] /\
+    o_end (ask_choice true q [dec_text (Z.of_nat i)]) = Answered (AMany [c]) /\ o_end (ask_choice true q [c]) = Failed VInvalid.
+Proof.
+  exists Spaced.q2, 0, [Spaced.a_; Spaced.sp; Spaced.b_]. destruct Spaced.multi_index_works_value_does_not as [H1 H2].
+  split; [reflexivity|]. split; [reflexivity|]. split; [reflexivity|]. split; [exact H1|exact H2].
+Qed.
+Print Assumptions index_and_value_multi_select_blank_refuted.
 
 (* Every invalid entry consumes exactly one attempt (one line read, one error printed): n invalid entries then a
    valid one answer after n + 1 lines with n errors printed ... *)
@@ -38,6 +77,19 @@ Theorem attempts_exact : forall q bad rest,
 Proof. exact attempts_exact_lemma. Qed.
 Print Assumptions attempts_exact.
 
+(* ... with the error of the LAST entry it was allowed (the earlier ones were printed, this one is raised): *)
+Theorem attempts_exact_last_error : forall q pre l rest er,
+  Forall (entry_invalid q) pre -> validate q (effective_answer q l) = inl er -> q_attempts q = Some (length (pre ++ [l])) ->
+  let o := ask_choice true q ((pre ++ [l]) ++ rest) in
+  o_end o = Failed er /\ o_lines_read o = length pre + 1 /\ o_errors_printed o = length pre.
+Proof. exact attempts_exact_err. Qed.
+Print Assumptions attempts_exact_last_error.
+(* a budget of zero attempts: nothing read, nothing printed, the question fails at once *)
+Theorem zero_attempts_fail_without_reading : forall q script, q_attempts q = Some 0 ->
+  ask_choice true q script = {| o_end := Failed VOther; o_lines_read := 0; o_errors_printed := 0; o_prompts := 0 |}.
+Proof. exact zero_attempts. Qed.
+Print Assumptions zero_attempts_fail_without_reading.
+
 (* It gives up at end of input instead of asking forever - with or without an attempt limit. *)
 Theorem gives_up_at_end_of_input : forall q bad,
   Forall (entry_invalid q) bad -> (match q_attempts q with Some k => length bad < k | None => True end) ->
@@ -48,13 +100,17 @@ Proof.
 Qed.
 Print Assumptions gives_up_at_end_of_input.
 
-(* Non-interactive: the default, nothing read, nothing written. *)
+(* Non-interactive: the default, nothing read, nothing written (no prompt, no error) - whatever the script holds.  This
+   and confirmation_non_interactive hold by the definition of the model (ask() tests io.is_interactive() first); the
+   content is in the tie: lines consumed from the stream and bytes on the error output are observed. *)
 Theorem non_interactive_default : forall q script,
   ask_choice false q script = {| o_end := Answered (default_answer q); o_lines_read := 0; o_errors_printed := 0; o_prompts := 0 |}.
 Proof. exact non_interactive_lemma. Qed.
 Print Assumptions non_interactive_default.
 
-(* Confirmation: true exactly for answers matching the pattern, the default on an empty answer. *)
+(* Confirmation: true exactly for answers matching the pattern, the default on an empty answer.
+   PARTIAL: patterns of the form (?i)^<literal prefix> only (the default "(?i)^y" is one); the regular expression
+   engine is not modelled - a pattern with metacharacters (".", "[yj]") is outside this statement. *)
 Theorem confirmation_table : forall dflt prefix line rest,
   ask_confirm true dflt prefix (line :: rest) = (CBool (match strip_ws line with [] => dflt | t => starts_with_ci prefix t end), 1).
 Proof. exact confirm_table. Qed.
@@ -128,3 +184,31 @@ Example dialogue_nonvacuous :
   snd (choice_text true q [63%N] script) = Some (msg_invalid [55%N]) /\
   fst (choice_text true q [63%N] script) = dialogue [63%N] [msg_invalid [120%N]; msg_none].
 Proof. vm_compute. repeat split. Qed.
+Theorem confirmation_end_of_input : forall dflt prefix, ask_confirm true dflt prefix [] = (CAborted, 0).
+Proof. exact confirm_eof. Qed.
+Print Assumptions confirmation_end_of_input.
+
+(* ---- non-vacuity: choices yes / no / maybe, two attempts resp. unlimited ---- *)
+Definition YES : str := [121;101;115]%N. Definition NO : str := [110;111]%N. Definition MAYBE : str := [109;97;121;98;101]%N.
+Definition ex_q (att : option nat) : choiceq := {| q_choices := [YES; NO; MAYBE]; q_multi := false; q_default := None; q_attempts := att |}.
+Definition X9 : str := [57]%N. Definition XX : str := [120]%N. Definition ONE_SP : str := [32;49;32]%N.
+Example invalid_entries_hypotheses_hold :
+  Forall (entry_invalid (ex_q None)) [X9; XX; []] /\ validate (ex_q None) (effective_answer (ex_q None) ONE_SP) = inr (AOne NO) /\
+  ask_choice true (ex_q None) ([X9; XX; []] ++ ONE_SP :: [YES]) = {| o_end := Answered (AOne NO); o_lines_read := 4; o_errors_printed := 3; o_prompts := 4 |}.
+Proof.
+  split; [|split; vm_compute; reflexivity].
+  repeat constructor; eexists; vm_compute; reflexivity.
+Qed.
+Example attempts_hypotheses_hold :
+  Forall (entry_invalid (ex_q (Some 2))) [X9] /\ validate (ex_q (Some 2)) (effective_answer (ex_q (Some 2)) XX) = inl VInvalid /\
+  ask_choice true (ex_q (Some 2)) (([X9] ++ [XX]) ++ [YES]) = {| o_end := Failed VInvalid; o_lines_read := 2; o_errors_printed := 1; o_prompts := 2 |}.
+Proof. split; [|split; vm_compute; reflexivity]. repeat constructor; eexists; vm_compute; reflexivity. Qed.
+Example end_of_input_instance :
+  ask_choice true (ex_q None) [X9; XX] = {| o_end := Aborted; o_lines_read := 2; o_errors_printed := 2; o_prompts := 3 |}.
+Proof. vm_compute. reflexivity. Qed.
+Example interchange_hypotheses_hold :
+  positions (q_choices (ex_q None)) NO 0 = [1] /\ positions (q_choices (ex_q None)) (dec_text 1) 0 = [] /\
+  strip_ws ONE_SP = dec_text (Z.of_nat 1) /\ strip_ws NO = NO.
+Proof. vm_compute. repeat split; reflexivity. Qed.
+Example ambiguous_entry : validate {| q_choices := [YES; YES]; q_multi := false; q_default := None; q_attempts := None |} (Some YES) = inl VAmbiguous.
+Proof. vm_compute. reflexivity. Qed.
